@@ -363,7 +363,8 @@ func checkF3(c *fw.Ctx) {
 				}
 				for _, term := range r.Cond {
 					ty, sk := isCreate(term, "param:res")
-					parsed := termHas(term, lit{[]string{"gmsl/spec.NewRoomID(*param:res.eventV2.eventV1.eventFields.RoomID)#1 == nil)"}, true})
+					// (the receiver may be the v3 event or one of the structs embedded in it)
+					parsed := termHas(term, lit{[]string{"gmsl/spec.NewRoomID(*param:res.", "eventFields.RoomID)#1 == nil)"}, true})
 					c.Check((ty && sk) || parsed, rule, "checkRoomID accepts only create events (type m.room.create AND empty state key) or ids the accessor's parser accepts", c.P.Pos(fw.InstrPos(r.Ret)), "", "accepted under "+fw.DNF{term}.String()+": RoomID() / AuthEventIDs() use the full create-event predicate and panic (invalid id, or \"\"[1:]) on events this path lets through")
 				}
 			}
@@ -467,6 +468,12 @@ func checkF3(c *fw.Ctx) {
 					okV = true
 				case inRegion && len(r.Sites)+r.TailSites == 0:
 					c.Undecided(rule, construct, "a room id validator is called in the constructor's region, but how its verdict reaches the constructor's result was not traced")
+					continue
+				}
+			}
+			if !okV {
+				if od := fw.OpaqueDispatch(fn); od != "" {
+					c.Undecided(rule, construct, "the constructor works through "+od+": where the room id is validated is not visible to the rule")
 					continue
 				}
 			}
@@ -710,6 +717,12 @@ func checkF4(c *fw.Ctx) {
 				why = "behind gjson.Valid"
 			} else {
 				ok, why = established(fn, call, arg, 0)
+			}
+			if !ok {
+				if od := fw.OpaqueDispatch(fn); od != "" {
+					c.Undecided(rule, fmt.Sprintf("%s is applied to established-valid JSON in %s", strings.TrimPrefix(cn, "gmsl."), name), "the routine works through "+od+": a decode of the bytes behind it would establish their validity")
+					continue
+				}
 			}
 			c.Check(ok, rule, fmt.Sprintf("%s is applied to established-valid JSON in %s", strings.TrimPrefix(cn, "gmsl."), name), c.P.Pos(call.Pos()), why, fmt.Sprintf("%s assumes valid JSON (it indexes past tokens without bounds checks) but %s", cn, why))
 		}
